@@ -209,7 +209,10 @@ static void ghost_obs(int point, const void* a, const void* b, int me) {
       }
       if (atomic_load(&g->running_on) >= 0) vp_add(c_early_wake, 1);  // woken before its switch completed
       atomic_fetch_add(&g->wakeups, 1);
-      if (atomic_exchange(&g->sleeping, 0)) atomic_fetch_sub(&g_sleepers, 1);
+      if (atomic_exchange(&g->sleeping, 0)) {
+        atomic_fetch_sub(&g_sleepers, 1);
+        atomic_fetch_add(&g->sleep_wakes, 1);
+      }
       if (atomic_exchange(&g->fdwait, 0)) atomic_fetch_sub(&g_fdwaiters, 1);
       const int si = sched_idx(a);
       atomic_store(&g->queued_sched, (uintptr_t)a);
@@ -299,6 +302,7 @@ static void ghost_obs(int point, const void* a, const void* b, int me) {
     case FV_SLEEP_REGISTERED: {
       vp_gfiber_t* g = gfind(a, 1);
       atomic_store(&g->sleep_wake_tick, *(const uint64_t*)b);
+      atomic_fetch_add(&g->sleep_regs, 1);
       if (!atomic_exchange(&g->sleeping, 1)) atomic_fetch_add(&g_sleepers, 1);
       vp_add(c_sleep, 1);
       break;
